@@ -29,6 +29,15 @@ C14 bounded tier: reversal and reverse complement.
     to_scaffold() under a minus-strand bait == the model reverse complement of the record streamed for the rows,
     under a plus/unknown bait == that record itself.  The known class is applied to the minus-bait comparison exactly
     as to scaffold.reverse(); a plus/unknown bait involves no reversal, so a mismatch there is never a known one.
+  * histories: the statement is about every reversal of every scaffold, also of one that was reversed before and has
+    been changed since.  A scaffold (or an overlap result) is taken through a sequence of reversals and edits on the
+    SAME object - add_row, append_scaffold with and without a gap, rows assigned / popped / inserted / extended /
+    replaced directly (`rows` is a public list), discard_start / discard_end / trim_fragment on an overlap result - and
+    the scaffolds handed out by earlier reversals are edited and reversed as well.  Every reversal is judged against the
+    rows its receiver holds at that moment (model reversal; a second reversal gives those rows back; length kept); the
+    result must be a new object sharing no row list with any other, and no step may change an object it was not applied
+    to.  In the streaming part every scaffold is also reversed *with a history* (its first half reversed once, the
+    second half appended without a gap, then reversed): the streamed record == the reverse complement as before.
 """
 
 import io
@@ -294,6 +303,168 @@ def check_long_stream(path, n, seed, width, eol, bs, jobs=None):
     return out, count
 
 
+# ----------------------------------------------------------------------------------------------------------
+# histories: reversals and edits on the same objects
+
+# edits of a Scaffold / of any object (direct edits of the public row list) / of an OverlapResult
+SCAFFOLD_EDITS = ("add_row", "append", "append_gap")
+LIST_EDITS = ("set", "pop", "pop_first", "extend", "insert", "assign", "clear", "reverse_rows")
+OVERLAP_EDITS = ("discard_start", "discard_end", "trim")
+
+
+def apply_history_edit(obj, op):
+    """the edit as a caller would make it; one that does not apply to the object's present rows is the caller's affair"""
+    kind = op[0]
+    try:
+        if kind == "add_row":
+            obj.add_row(row_from(op[2]))
+        elif kind == "append":
+            obj.append_scaffold(scaffold_from("other", op[2]))
+        elif kind == "append_gap":
+            obj.append_scaffold(scaffold_from("other", op[2]), row_from(op[3]))
+        elif kind == "set":
+            obj.rows[op[2] % len(obj.rows)] = row_from(op[3])
+        elif kind == "pop":
+            obj.rows.pop()
+        elif kind == "pop_first":
+            obj.rows.pop(0)
+        elif kind == "extend":
+            obj.rows.extend(row_from(x) for x in op[2])
+        elif kind == "insert":
+            obj.rows.insert(op[2] % (len(obj.rows) + 1), row_from(op[3]))
+        elif kind == "assign":
+            obj.rows = [row_from(x) for x in op[2]]
+        elif kind == "clear":
+            obj.rows.clear()
+        elif kind == "reverse_rows":
+            obj.rows.reverse()
+        elif kind == "discard_start":
+            obj.discard_start()
+        elif kind == "discard_end":
+            obj.discard_end()
+        elif kind == "trim":
+            obj.trim_fragment(obj.rows[0])
+    except Exception:  # noqa: BLE001
+        pass
+
+
+def check_history(rows, ops, bait_strand=None):
+    """
+    rows: the first object (number 0): a Scaffold, or with bait_strand an OverlapResult found for a bait of that strand.
+    ops:  ["reverse", k] - object k is reversed the way it offers (Scaffold.reverse(), OverlapResult.to_scaffold()); the
+          scaffold returned becomes the next object;  [edit, k, ...] - object k is edited (apply_history_edit).
+    After an edit the rows the object then holds are read back (the edit itself is not on trial); every reversal is
+    judged against the rows its receiver holds.  -> messages of the first step that goes wrong
+    """
+    specs = [norm(r) for r in rows]
+    first = scaffold_from("sc", specs) if bait_strand is None else overlap_from("sc", specs, bait_strand)
+    objs = [[first, specs]]
+    for n, op in enumerate(ops):
+        k = op[1]
+        if k >= len(objs):
+            continue
+        obj, held = objs[k]
+        ctx = f"step {n + 1} of the history {ops} on a {'scaffold' if bait_strand is None else 'overlap result (' + BAIT_WORD[bait_strand] + ')'} with rows {specs}: "
+        msgs = []
+        if op[0] == "reverse":
+            is_ovr = isinstance(obj, OverlapResult)
+            call = "to_scaffold()" if is_ovr else "reverse()"
+            try:
+                new = obj.to_scaffold() if is_ovr else obj.reverse()
+                got = specs_of(new)
+                back = specs_of(new.reverse()) if not is_ovr or bait_strand == -1 else None
+            except Exception as e:  # noqa: BLE001
+                return [f"{ctx}{call} of object {k} raised {e!r}"]
+            flipped = not is_ovr or bait_strand == -1
+            want = model_reverse(held) if flipped else held
+            if got != want:
+                msgs.append(
+                    f"{ctx}{call} of object {k}, which holds the rows {held}, gives rows {got}, expected "
+                    f"{'order inverted and every strand negated' if flipped else 'the rows unchanged'}: {want}"
+                )
+            elif back is not None and back != held:
+                msgs.append(f"{ctx}reversing the result of {call} of object {k} gives rows {back}, the rows held are {held}")
+            want_len = sum(G.spec_length(x) for x in held)
+            if not msgs and sum(r.length for r in new.rows) != want_len:
+                msgs.append(f"{ctx}{call} of object {k} has rows of total length {sum(r.length for r in new.rows)}, the rows held sum to {want_len}")
+            for j, (other, _) in enumerate(objs):
+                if other is new:
+                    msgs.append(f"{ctx}{call} of object {k} returned object {j} itself, not a new scaffold")
+                elif other.rows is new.rows:
+                    msgs.append(f"{ctx}{call} of object {k} returned a scaffold that shares its row list with object {j}")
+            objs.append([new, got])
+            k = None
+        else:
+            apply_history_edit(obj, op)
+            objs[k][1] = specs_of(obj)
+        for j, (other, was) in enumerate(objs):
+            if j != k and specs_of(other) != was:
+                msgs.append(f"{ctx}the step changed object {j}, to which it was not applied: rows {was} became {specs_of(other)}")
+        if msgs:
+            return msgs
+    return []
+
+
+def history_scripts(c, extra):
+    """
+    the enumerated histories of one start object; c: running number, extra: three row specs to edit with.
+    Every edit kind between two reversals of the same object; an edit of the scaffold handed out by the first reversal;
+    edits before the first reversal and several rounds.
+    """
+    x, y, z = extra
+    gap = ["G", 200, "scaffold"]
+    edits = [
+        ["add_row", 0, x], ["append", 0, [y, z]], ["append", 0, [x]], ["append_gap", 0, [y], gap], ["append_gap", 0, [], gap],
+        ["set", 0, c, x], ["pop", 0], ["pop_first", 0], ["extend", 0, [z, x]], ["insert", 0, c, y], ["assign", 0, [x, y]], ["clear", 0], ["reverse_rows", 0],
+    ]  # fmt: skip
+    for e in edits:
+        yield [["reverse", 0], e, ["reverse", 0]]
+    e1, e2, e3 = edits[c % len(edits)], edits[(c + 4) % len(edits)], edits[(c + 7) % len(edits)]
+    r1, r2 = [e1[0], 1, *e1[2:]], [e2[0], 1, *e2[2:]]
+    # the scaffold handed out is edited: the receiver reversed again, the result reversed
+    yield [["reverse", 0], r1, ["reverse", 0], ["reverse", 1], r2, ["reverse", 1]]
+    # edits first, then rounds of reversal and edit
+    yield [e1, ["reverse", 0], e2, ["reverse", 0], e3, ["reverse", 0], ["reverse", 3]]
+    # add_row (which every implementation sees) followed by an edit it may not see
+    yield [["reverse", 0], ["add_row", 0, x], ["reverse", 0], e2, ["reverse", 0]]
+
+
+def overlap_history_scripts(c, extra):
+    x, y, _ = extra
+    edits = [["discard_start", 0], ["discard_end", 0], ["trim", 0], ["set", 0, c, x], ["pop", 0], ["extend", 0, [y]], ["assign", 0, [y, x]], ["reverse_rows", 0], ["insert", 0, c, x]]
+    for e in edits:
+        yield [["reverse", 0], e, ["reverse", 0]]
+    yield [["reverse", 0], [edits[c % 9][0], 1, *edits[c % 9][2:]] if edits[c % 9][0] not in OVERLAP_EDITS else ["pop", 1], ["reverse", 0], ["reverse", 1]]
+    yield [edits[c % 9], ["reverse", 0], edits[(c + 2) % 9], ["reverse", 0], edits[(c + 5) % 9], ["reverse", 0]]
+
+
+def random_history(rng, n_ops, overlap):
+    pool = POOL
+    ops = []
+    n_objs = 1
+    for _ in range(n_ops):
+        k = rng.randrange(n_objs) if rng.random() < 0.4 else 0
+        if rng.random() < 0.4:
+            ops.append(["reverse", k])
+            n_objs += 1
+            continue
+        kinds = LIST_EDITS + ((OVERLAP_EDITS * 2) if (overlap and k == 0) else (SCAFFOLD_EDITS * 2))
+        kind = rng.choice(kinds)
+        some = [rng.choice(pool) for _ in range(rng.randint(0, 2))]
+        one = rng.choice(pool)
+        if kind in ("add_row",):
+            ops.append([kind, k, one])
+        elif kind in ("append", "extend", "assign"):
+            ops.append([kind, k, some])
+        elif kind == "append_gap":
+            ops.append([kind, k, some, ["G", 200, "scaffold"]])
+        elif kind in ("set", "insert"):
+            ops.append([kind, k, rng.randrange(6), one])
+        else:
+            ops.append([kind, k])
+    return ops
+
+
 def stream_seq(fi, scaffold, line_length, memo=None):
     """(name, residues) of the record written for the scaffold.  memo (one per file / buffer size / line length):
     scaffolds with the same name and rows are streamed once, so that the three ways of reversing one scaffold,
@@ -318,24 +489,38 @@ def first_difference(got, want):
 
 
 def reversal_commutes(fi, specs, line_length, via="reverse", memo=None):
-    """via "reverse": scaffold.reverse();  via 1 / -1 / 0: to_scaffold() of an OverlapResult holding the same rows,
-    found for a bait of that strand.  -> message or None"""
+    """via "reverse": scaffold.reverse();  via "history": the same scaffold reached with a history - its first half is
+    reversed once (result dropped), then the second half is appended without a gap - and reversed;  via 1 / -1 / 0:
+    to_scaffold() of an OverlapResult holding the same rows, found for a bait of that strand.  -> message or None"""
     sc = scaffold_from("sc", specs)
     try:
         name1, fwd = stream_seq(fi, sc, line_length, memo)
-        other = sc.reverse() if via == "reverse" else overlap_from("sc", specs, via).to_scaffold()
+        if via == "history":
+            h = len(specs) // 2
+            sc = scaffold_from("sc", specs[:h])
+            sc.reverse()
+            sc.append_scaffold(scaffold_from("rest", specs[h:]))
+            if specs_of(sc) != [norm(x) for x in specs]:
+                return None  # the edit did not give the scaffold meant: nothing to say about its reversal
+        other = sc.reverse() if via in ("reverse", "history") else overlap_from("sc", specs, via).to_scaffold()
         name2, rev = stream_seq(fi, other, line_length, memo)
     except Exception as e:  # noqa: BLE001
-        return f"streaming raised {e!r}" if via == "reverse" else f"streaming to_scaffold() of the overlap result ({BAIT_WORD[via]}) raised {e!r}"
-    if via != "reverse" and via != -1:
+        return f"streaming raised {e!r}" if via in ("reverse", "history") else f"streaming to_scaffold() of the overlap result ({BAIT_WORD[via]}) raised {e!r}"
+    if via not in ("reverse", "history", -1):
         want = None
     elif memo is None:
         want = G.revcomp(fwd)
     else:
         want = memo[("model revcomp", fwd)] = memo.get(("model revcomp", fwd)) or G.revcomp(fwd)
-    if via == "reverse":
+    if via in ("reverse", "history"):
         if name1 != name2:
             return f"reversed scaffold streamed under the name {name2!r}, original {name1!r}"
+        if rev != want and via == "history":
+            h = len(specs) // 2
+            return (
+                f"a scaffold whose first {h} rows were reversed once before the other {len(specs) - h} were appended (append_scaffold, no gap): "
+                f"streaming its reversal gives {len(rev)} residues, the reverse complement of streaming it has {len(want)}; {first_difference(rev, want)}"
+            )
         if rev != want:
             return (
                 f"streaming the reversed scaffold gives {len(rev)} residues, the reverse complement of streaming the original has "
@@ -362,7 +547,7 @@ def check_stream(fi, specs, line_length, via="reverse", memo=None):
     if msg is None:
         return None, []
     has0 = any(s[0] == "F" and s[4] == 0 for s in specs)
-    if has0 and via in ("reverse", -1):  # a plus/unknown bait makes no reversal: nothing there can be the known class
+    if has0 and via in ("reverse", "history", -1):  # a plus/unknown bait makes no reversal: nothing there can be the known class
         without = [s for s in specs if not (s[0] == "F" and s[4] == 0)]
         if reversal_commutes(fi, without, line_length, via, memo) is None:
             return msg, [KNOWN]
@@ -383,6 +568,9 @@ def replay(inp):
         return m[0] if m else None
     if inp["kind"] == "overlap":
         m = check_overlap(inp["rows"], inp["bait_strand"], inp["bait_tags"], inp["overhang"])
+        return m[0] if m else None
+    if inp["kind"] == "history":
+        m = check_history(inp["rows"], inp["ops"], inp.get("bait_strand"))
         return m[0] if m else None
     if inp["kind"] == "table":
         m = check_table()
@@ -416,12 +604,16 @@ def run(tier, seed, **opts):
         f"reverse: every sequence of 0..{max_rows} rows from a pool of {len(POOL)} (strands +,-,?; tags; gaps incl. length 0); "
         "overlap result: the same row sequences x bait strand +,-,? (bait tags and overhangs rotating), to_scaffold() against the "
         "model reversal (minus bait) or the rows unchanged; "
+        f"histories: row sequences of 0..{2 if quick else 3} rows as a scaffold or an overlap result, taken through reversals and edits of the "
+        "same object (add_row, append_scaffold with / without gap, direct edits of the row list, discard_start / discard_end / "
+        "trim_fragment) and of the scaffolds handed out, every edit kind between two reversals, plus seeded histories of 3..10 "
+        "steps: each reversal against the rows held at that moment, results new and unshared, no step changes another object; "
         "complement: 256 byte values, all 1- and 2-byte strings, random byte strings, long byte strings with lengths around powers "
         "of two and typical block sizes (2**12+1 .. 2**20+3; thorough to 2**24+5); streaming: long records with minus-strand "
         "fragments longer than 2**16 and buffers larger than that; FASTA files with mixed-case "
         "IUPAC and non-IUPAC residues in several layouts x scaffolds of 1..3 rows from a pool of intervals x strands +,-,? "
-        "and gaps x buffer sizes x line lengths, and random scaffolds over random files, each reversed three ways: "
-        "scaffold.reverse(), to_scaffold() of an overlap result with a minus-strand bait (both: reverse complement expected), "
+        "and gaps x buffer sizes x line lengths, and random scaffolds over random files, each reversed four ways: "
+        "scaffold.reverse(), reverse() of the same scaffold reached with a history (first half reversed once, rest appended), to_scaffold() of an overlap result with a minus-strand bait (both: reverse complement expected), "
         "to_scaffold() with a plus- or unknown-strand bait (same record expected); non-trivial = distinct input with at "
         "least one fragment row (reverse, overlap result, streaming) / at least one byte (complement)"
     )
@@ -454,6 +646,40 @@ def run(tier, seed, **opts):
                          sample=inp if (combo, bait_strand) == ((0, 5, 1, 2), -1) else None)
         if col.full:
             break
+    # 1c. histories: reversals and edits on the same objects.  Enumerated: every row sequence of 0..2 rows (thorough: 0..3)
+    #     from the pool as a scaffold, and (1..2 / 1..3 rows) as an overlap result under each bait strand, x the scripts of
+    #     history_scripts / overlap_history_scripts; seeded: random histories of 3..10 steps
+    n_hist = 0
+    hist_rows = 2 if quick else 3
+    for n in range(0, hist_rows + 1):
+        for combo in itertools.product(range(len(POOL)), repeat=n):
+            rows = [POOL[i] for i in combo]
+            c = sum(combo) + n
+            extra = [POOL[(c + 1) % 5], POOL[5 + c % 3], POOL[(c + 3) % 5]]
+            starts = [(None, history_scripts(c, extra))]
+            if n:
+                starts += [(b, overlap_history_scripts(c + b, extra)) for b in ((1, -1, 0) if not quick or n == 1 else (-1,))]
+            for bait_strand, scripts in starts:
+                for ops in scripts:
+                    n_hist += 1
+                    inp = {"kind": "history", "rows": rows, "ops": ops, "bait_strand": bait_strand}
+                    msgs = check_history(rows, ops, bait_strand)
+                    if msgs:
+                        col.fail(msgs[0], inp)
+                    col.case(("history", combo, repr(ops), bait_strand), sample=inp if n_hist in (400, 2500) else None)
+        if col.full:
+            break
+    n_random_hist = 400 if quick else 30000
+    for k in range(n_random_hist):
+        rows = [rng.choice(POOL) for _ in range(rng.randint(0, 4))]
+        overlap = k % 3 == 0
+        bait_strand = rng.choice((-1, -1, 1, 0)) if overlap else None
+        ops = random_history(rng, rng.randint(3, 10), overlap)
+        inp = {"kind": "history", "rows": rows, "ops": ops, "bait_strand": bait_strand}
+        msgs = check_history(rows, ops, bait_strand)
+        if msgs:
+            col.fail(msgs[0], inp)
+        col.case(("history", repr(rows), repr(ops), bait_strand))
     # 2. complement table and involution
     for m in check_table():
         col.fail(m, {"kind": "table"})
@@ -532,7 +758,9 @@ def run(tier, seed, **opts):
                             ll = (60, 3, 7)[(sum(combo) + n) % 3]
                             # scaffold.reverse(), a minus-strand bait, and one of plus / unknown bait
                             memo = {}
-                            for via in ("reverse", -1, (1, 0)[(sum(combo) + bs) % 2]):
+                            # ... and, for the 1- and 2-row scaffolds and a share of the others, reverse() after a history
+                            with_history = n < 3 or (quick and sum(combo) % 5 == 0) or (not quick and sum(combo) % 3 == 0)
+                            for via in ("reverse", *(("history",) if with_history else ()), -1, (1, 0)[(sum(combo) + bs) % 2]):
                                 msg, classes = check_stream(fi, rows, ll, via, memo)
                                 inp = {"kind": "stream", "case": spec, "buffer": bs, "rows": rows, "line_length": ll, "via": via}
                                 if msg:
@@ -574,7 +802,7 @@ def run(tier, seed, **opts):
                             rows.append(["F", r.name, s, e, strand, []])
                     ll = rng.choice((60, 60, 1, 5, 61))
                     memo = {}
-                    for via in ("reverse", -1, (1, 0)[(k + _rep) % 2]):
+                    for via in ("reverse", "history", -1, (1, 0)[(k + _rep) % 2]):
                         msg, classes = check_stream(fi, rows, ll, via, memo)
                         inp = {"kind": "stream", "case": case.spec(), "buffer": bs, "rows": rows, "line_length": ll, "via": via}
                         if msg:
@@ -590,14 +818,15 @@ def run(tier, seed, **opts):
                 G.remove_with_caches(path)
     return col.result(
         bounds=(
-            f"reverse: {len(POOL)}-row pool, sequences of 0..{max_rows}; overlap result: the same sequences x 3 bait strands; complement: exhaustive over 256 values and 65792 short strings, "
+            f"reverse: {len(POOL)}-row pool, sequences of 0..{max_rows}; overlap result: the same sequences x 3 bait strands; "
+            f"histories: {n_hist} enumerated over sequences of 0..{hist_rows} rows, {n_random_hist} seeded of 3..10 steps; complement: exhaustive over 256 values and 65792 short strings, "
             f"{2000 if quick else 50000} random strings up to 200 bytes, {len(lengths)} long strings of {min(lengths)}..{max(lengths)} bytes "
             "(lengths around powers of two / block sizes); streaming: one-record files of "
             + ("131077 residues" if quick else "65537..1048579 residues")
             + " with long minus-strand fragments and buffers > 2**16; 2-record file (32 and 7 residues) in {len(lays)} layouts, "
             "18 fragment rows + 3 gaps, all 1- and 2-row scaffolds and a fixed share of the 3-row ones, buffers "
             + ("1,3,5,250000" if quick else "1,2,3,4,5,7,8,31,32,33,250000")
-            + f"; {150 if quick else 5000} random files x 8 random scaffolds; every streamed scaffold via reverse(), minus bait, plus-or-unknown bait"
+            + f"; {150 if quick else 5000} random files x 8 random scaffolds; every streamed scaffold via reverse(), reverse() after a history, minus bait, plus-or-unknown bait"
         ),
         exhaustive=False,
         known_class_failures_seen=known_seen,
